@@ -1,4 +1,4 @@
 From Coq Require Extraction ExtrOcamlBasic.
 From GV Require Import Common.Outcome C11.Model.
 Extraction Language OCaml.
-Extraction "model.ml" lex_from_str unescape_gen trim_end_unescaped.
+Extraction "model.ml" lex_from_str unescape_sel trim_end_unescaped_gen trim_pred.
